@@ -123,4 +123,45 @@ theorem C07.route_fifo (t : Tables) (a : Nat) (q : List Nat) (toks : List Nat)
 
 example : (rstep (rstep (rstep {} (.openUp 7 3)).1 (.ack 3 11)).1 (.drainAck 3)).2 = .items [11] := by decide
 
+/-- FAILING ONE STREAM CHANGES NOTHING FOR THE OTHERS: an upstream open or resume the broker refuses (whatever alias and stream
+    id its response carries — a refusal's alias field is typically 0, which may be a healthy stream's alias) leaves every
+    routing table exactly as it was -/
+theorem C07.refused_open_changes_nothing (t : Tables) (a : ReqArgs) (rsid ralias : Nat) :
+    afterResponse t .upOpen a rsid ralias false = t ∧ afterResponse t .upResume a rsid ralias false = t := by
+  simp [afterResponse]
+
+/-- … through the typed wrapper: whatever the correlator does with the response, the tables are untouched -/
+theorem C07.refused_response_frame (w : Wire) (id rsid ralias : Nat) (rk : RKind)
+    (hk : ∀ x ∈ w.c.waiting, x.kind = .upOpen ∨ x.kind = .upResume) :
+    (wresp w id rk rsid ralias false).1.t = w.t := by
+  unfold wresp
+  cases hf : w.c.waiting.find? (fun x => alGet id w.c.pending = some x.caller ∧ x.id = id) with
+  | none =>
+    simp only [Option.map_none]
+    split
+    · next h1 h2 => cases h2
+    · rfl
+  | some x =>
+    have hx := hk x (List.mem_of_find?_eq_some hf)
+    simp only [Option.map_some]
+    split
+    · next h1 h2 =>
+      simp only [Option.some.injEq] at h2
+      subst h2
+      rcases hx with h | h <;> simp [afterResponse, h]
+    · rfl
+
+/-- … while an accepted open touches the assigned alias only (the view of every other alias is unchanged) -/
+theorem C07.accepted_open_frame (t : Tables) (a : ReqArgs) (rsid ralias b : Nat) (hb : b ≠ ralias) :
+    rview (afterResponse t .upOpen a rsid ralias true) b = rview t b := by
+  simp only [afterResponse, if_true]
+  exact C07.route_frame t (.openUp rsid ralias) ralias b rfl hb
+
+example : let w0 : Wire := {}
+    let (w1, _) := wreq w0 1 .upOpen {}
+    let (w2, _) := wresp w1 2 .upOpenR 7 0            -- stream 7 holds alias 0
+    let (w3, _) := wreq w2 2 .upOpen {}
+    let (w4, o) := wresp w3 4 .upOpenR 0 0 false       -- an unrelated open is refused; its alias field is 0
+    (o, (rstep (rstep w4.t (.ack 0 11)).1 (.drainAck 0)).2) = (.delivered 2 .upOpenR, .items [11]) := by decide
+
 end Iscp.Corr
